@@ -420,3 +420,11 @@ for _tag, _c in (('1', 1), ('i', 1j), ('m1', -1), ('mi', -1j)):
 def g_lneg(rng, level=0, n_random=60):
     for a in _mk_rmul(1, 'PauliList')(rng, level, n_random):
         yield {'self': a['self']}
+
+
+@gen(PA + 'PauliList.rotate_by#state')
+def g_rot_state(rng, level=0, n_random=150):
+    pa, _ = _pc()
+    for _ in range(n_random):
+        N = int(rng.integers(1, 4))
+        yield {'self': _rand_state(rng, N), 'generator': pa.Pauli(bits(rng, 2 * N), int(2 * rng.integers(0, 2))), 'mask': None}
